@@ -7,6 +7,7 @@ instantiated at an arbitrary ordered field `K` with an arbitrary floor function 
 import Mahotas.Proofs.C18Shift
 import Mahotas.Proofs.C18Filter
 import Mahotas.Proofs.C18Order3
+import Mahotas.Proofs.C18Tensor
 import Mathlib.Data.Rat.Floor
 
 open Mahotas Mahotas.C18
@@ -317,3 +318,118 @@ example : weights (fun z : ℚ => ⌊z⌋) 3 (5 / 2) = [1 / 48, 23 / 48, 23 / 48
     simp only [weights, startIdx, f1]
     norm_num [List.range_succ, splineCoeff, absV, q]
   · decide
+
+/-- **C18 (`zoom_shift` IS the evaluation of the tensor-product B-spline expansion).** For every spline order
+(1–5 are the ones `spline_coefficients` implements; the statement holds for any), every rank and shape, every
+border mode and every output position whose mapped coordinates `x_r = coord kk_r shift_r zoom_r` lie inside
+`[0, len_r − 1]` on every axis (`InRange`: no border rule is applied to the coordinate), the whole `zoom_shift`
+model (`pixel`: coordinate map, `mapCoord`, start knot, weights, knot folding, the flat accumulation
+`t += ((c·w₀)·w₁)…` in `fcoordinates` order) returns
+
+`Σ_{h ∈ {0..order}^rank} (∏_r w_{h_r}(x_r)) · c[k_0(h_0), …, k_{rank−1}(h_{rank−1})]`
+
+where, exactly as the code computes them, `w_h(x) = splineCoeff order |start(x) − x + h|` (`weights`),
+`start(x) = (order odd ? ⌊x⌋ : ⌊x + ½⌋) − order/2` (`startIdx`) and `k_r(h) = edgeFold len_r (start(x_r) + h)`
+(the mirror folding, the identity for knots inside the array: `edgeFold_inside`). `splineAxes` packs these per
+axis, `tensorTerms` enumerates all `(order+1)^rank` knot tuples (third conjunct: their number is the product of
+the per-axis knot counts). Second conjunct: the same value as the nested (axis-by-axis) sum `nestedSum`. With
+`C18_weights_partition` (the weights sum to one for orders 1–5) this is the value at `x` of the B-spline
+expansion of the coefficient array `c`. No property of `fl` is used. -/
+theorem C18_zoom_shift_is_tensor_spline {K : Type} [Field K] [LinearOrder K] [IsStrictOrderedRing K]
+    (fl : K → Int) (order : Nat) (m : Mode) (cval : K) (im : Img K)
+    (shifts zooms : List (Option K)) (p : List Int)
+    (hr : InRange im.shape (coordsOf im.shape p shifts zooms)) :
+    let axes := splineAxes fl order im.shape (coordsOf im.shape p shifts zooms)
+    pixel fl order m cval im shifts zooms p
+        = ((tensorTerms axes).map fun pw => pw.2.prod * im.getD pw.1 0).sum ∧
+    pixel fl order m cval im shifts zooms p = nestedSum (fun pos => im.getD pos 0) axes ∧
+    (tensorTerms axes).length = (axes.map fun e => (e.1.zip e.2).length).prod := by
+  intro axes
+  have e : pixel fl order m cval im shifts zooms p
+      = ((tensorTerms axes).map fun pw => pw.2.prod * im.getD pw.1 0).sum := by
+    unfold pixel
+    rw [go_inrange fl order m im.shape p shifts zooms hr]
+    simp only [Nat.cast_zero]
+    have := tensorSum_eq_sum (fun pos => im.getD pos (0 : K)) axes
+    simp only [Nat.cast_zero] at this
+    exact this
+  refine ⟨e, ?_, tensorTerms_length axes⟩
+  rw [e]
+  exact flat_eq_nested axes (fun pos => im.getD pos 0)
+
+/-- **C18 (order 1 at fractional coordinates is multilinear interpolation, any rank).** For every rank, shape,
+border mode and output position whose mapped coordinates lie inside `[0, len_r − 1]` on every axis, the
+`zoom_shift` model at order 1 returns the multilinear interpolation of the `2^rank` neighbouring samples
+(`multilinear`): along every axis `(1 − t_r)·(… at ⌊x_r⌋) + t_r·(… at ⌊x_r⌋ + 1)` with `t_r = x_r − ⌊x_r⌋`
+(the upper neighbour passes through the knot folding, which is the identity unless `x_r = len_r − 1`, where its
+weight `t_r` is 0). -/
+theorem C18_fractional_order1_is_linear_nd {K : Type} [Field K] [LinearOrder K] [IsStrictOrderedRing K]
+    {fl : K → Int} (h : IsFloor fl) (m : Mode) (cval : K) (im : Img K)
+    (shifts zooms : List (Option K)) (p : List Int)
+    (hr : InRange im.shape (coordsOf im.shape p shifts zooms)) :
+    pixel fl 1 m cval im shifts zooms p
+      = multilinear fl (fun pos => im.getD pos 0) im.shape (coordsOf im.shape p shifts zooms) := by
+  rw [(C18_zoom_shift_is_tensor_spline fl 1 m cval im shifts zooms p hr).2.1]
+  exact nested_order1 h im.shape _ _ hr
+
+/-- **C18 (coordinate map of `shift`).** In any rank: the model of `interpolate.shift` is `zoom_shift` onto the
+input's shape with the negated shift vector, and output index `kk_r` reads input coordinate `kk_r − shift_r` on
+every axis (`coordsOf` is the list of coordinates `pixel` works with, cf. `C18_zoom_shift_is_tensor_spline`). -/
+theorem C18_shift_coordinate_map {K : Type} [Field K] [LinearOrder K] [IsStrictOrderedRing K]
+    (fl : K → Int) (order : Nat) (m : Mode) (cval : K) (im : Img K) (sh : List K) (p : List Int)
+    (hp : ∀ kk ∈ p, 0 ≤ kk) (h1 : im.shape.length = p.length) (h2 : p.length = sh.length) :
+    shiftGlue fl order m cval im sh
+        = Img.tabulate im.shape
+            (pixel fl order m cval im (sh.map fun s => some (-s)) (sh.map fun _ => none)) ∧
+    coordsOf im.shape p (sh.map fun s => some (-s)) (sh.map fun _ => (none : Option K))
+      = List.zipWith (fun (kk : Int) (s : K) => (kk : K) - s) p sh :=
+  ⟨rfl, coordsOf_shift im.shape p sh hp h1 h2⟩
+
+/-- **C18 (coordinate map of `zoom`).** In any rank, for output axes of at least two samples: the model of
+`interpolate.zoom(out=…)` is `zoom_shift` onto the requested shape with the factors `(n_in − 1)/(n_out − 1)`,
+output index `kk_r` reads input coordinate `kk_r·(n_in,r − 1)/(n_out,r − 1)` on every axis, and this map sends
+corner to corner: `0 ↦ 0`, `n_out − 1 ↦ n_in − 1`. -/
+theorem C18_zoom_coordinate_map {K : Type} [Field K] [LinearOrder K] [IsStrictOrderedRing K]
+    (fl : K → Int) (order : Nat) (m : Mode) (cval : K) (im : Img K) (oshape : List Nat) (p : List Int)
+    (hp : ∀ kk ∈ p, 0 ≤ kk) (ho : ∀ n ∈ oshape, 2 ≤ n)
+    (h1 : im.shape.length = p.length) (h2 : p.length = oshape.length) :
+    zoomGlue fl order m cval im oshape
+        = Img.tabulate oshape
+            (pixel fl order m cval im (oshape.map fun _ => none)
+              ((im.shape.zip oshape).map fun io => some (zoomFactor io.1 io.2))) ∧
+    coordsOf im.shape p (oshape.map fun _ => (none : Option K))
+        ((im.shape.zip oshape).map fun io => some (zoomFactor io.1 io.2 : K))
+      = List.zipWith (fun (kk : Int) (io : Nat × Nat) => (kk : K) * ((io.1 : K) - 1) / ((io.2 : K) - 1))
+          p (im.shape.zip oshape) ∧
+    (∀ nin nout : Nat, 2 ≤ nout →
+      ((0 : Int) : K) * ((nin : K) - 1) / ((nout : K) - 1) = 0 ∧
+      (((nout : Int) - 1 : Int) : K) * ((nin : K) - 1) / ((nout : K) - 1) = (nin : K) - 1) := by
+  refine ⟨rfl, coordsOf_zoom im.shape oshape p hp ho h1 h2, ?_⟩
+  intro nin nout h
+  constructor
+  · simp
+  · have : ((nout : K) - 1) ≠ 0 := by
+      have : (1 : K) < (nout : K) := by exact_mod_cast h
+      linarith
+    push_cast
+    field_simp
+
+/-- a 2×2 image over ℚ for the non-vacuity example below -/
+def c18Im22 : Img ℚ := { shape := [2, 2], data := #[0, 1, 2, 3] }
+
+/-- non-vacuity of the in-range hypothesis and of `C18_fractional_order1_is_linear_nd`: a shift by `(½, ½)` of
+the 2×2 image `[[0,1],[2,3]]` reads, at output `(1,1)`, the in-range coordinate `(½, ½)`, and the multilinear
+interpolation there is the mean `3/2` of the four samples -/
+example : InRange c18Im22.shape
+      (coordsOf c18Im22.shape [1, 1] [some (-(1 / 2 : ℚ)), some (-(1 / 2))] [none, none]) ∧
+    multilinear (fun z : ℚ => ⌊z⌋) (fun pos => c18Im22.getD pos 0) c18Im22.shape
+      (coordsOf c18Im22.shape [1, 1] [some (-(1 / 2 : ℚ)), some (-(1 / 2))] [none, none]) = 3 / 2 := by
+  have f1 : ⌊(1 / 2 : ℚ)⌋ = 0 := by rw [Int.floor_eq_iff]; norm_num
+  constructor
+  · simp [InRange, coordsOf, coord, c18Im22]; norm_num
+  · have c : coordsOf c18Im22.shape [1, 1] [some (-(1 / 2 : ℚ)), some (-(1 / 2))] [none, none]
+        = [1 / 2, 1 / 2] := by
+      simp [coordsOf, coord, c18Im22]; norm_num
+    rw [c]
+    simp only [multilinear, c18Im22, f1]
+    norm_num [edgeFold, fixOffset, Img.getD, inside, ravelI, shapeSize]
